@@ -153,7 +153,12 @@ def r3(p, rep, rid="C14.R3", only_update=True):
 
 def r4(p, rep):
     rep.rule("C14.R4", "indices and updates are broadcast to the common shape whenever a broadcast function is supplied", "T-MPT over the CFG of the scatter combinator", floor=2)
-    outer, f = common.scatter_combinator_inner(p)
+    outer, f0 = common.scatter_combinator_inner(p)
+    # small nested helpers (`indices, updates = broadcast_together(indices, updates)`) are written out first
+    import types as _types
+
+    fnode = common.inline_lexical_helpers(f0.node)
+    f = _types.SimpleNamespace(node=fnode, params=f0.params, module=f0.module, qualname=f0.qualname)
     cfg = CFG(f.node)
     params = f.params
     opname = outer.params[0]
@@ -161,9 +166,13 @@ def r4(p, rep):
     if not opcalls:
         raise AnalysisError("unrecognised idiom: the scatter combinator never calls its primitive")
     opnode = cfg.node_for(opcalls[0])
-    edges = [n for n in cfg.nodes if n.kind == "edge" and n.polarity is True and n.test is not None and norm(n.test) == "broadcast is not None"]
+    def _t(n):
+        # the test as written, or with a named boolean (`needs_broadcast = broadcast is not None`) written out
+        return {norm(n.test), norm(cfg.expand(n.test, n.pred[0] if n.pred else n))}
+
+    edges = [n for n in cfg.nodes if n.kind == "edge" and n.polarity is True and n.test is not None and "broadcast is not None" in _t(n)]
     if not edges:
-        edges = [n for n in cfg.nodes if n.kind == "edge" and n.polarity is False and n.test is not None and norm(n.test) == "broadcast is None"]
+        edges = [n for n in cfg.nodes if n.kind == "edge" and n.polarity is False and n.test is not None and "broadcast is None" in _t(n)]
     if not edges:
         raise AnalysisError("unrecognised idiom: no test of `broadcast is not None` in the scatter combinator")
     shapes = []
@@ -171,7 +180,22 @@ def r4(p, rep):
         # the local that carries parameter i when op is called
         var = opcalls[0].args[i]
         vname = var.id if isinstance(var, ast.Name) else None
-        assigns = [n for n in walk_no_nested(f.node) if isinstance(n, ast.Assign) and vname and any(isinstance(t, ast.Name) and t.id == vname for t in n.targets) and isinstance(n.value, ast.Call) and isinstance(n.value.func, ast.Name) and n.value.func.id == "broadcast" and n.value.args and norm(n.value.args[0]) == vname]
+        def _is_bc(t, v):
+            return isinstance(t, ast.Name) and t.id == vname and isinstance(v, ast.Call) and isinstance(v.func, ast.Name) and v.func.id == "broadcast" and v.args and norm(v.args[0]) == vname
+
+        assigns = []
+        for n in walk_no_nested(f.node):
+            if not (isinstance(n, ast.Assign) and vname):
+                continue
+            for t in n.targets:
+                if _is_bc(t, n.value):
+                    assigns.append(n)
+                elif isinstance(t, ast.Tuple) and isinstance(n.value, ast.Tuple) and len(t.elts) == len(n.value.elts):
+                    # `indices, updates = broadcast(indices, shape), broadcast(updates, shape)`
+                    for te, ve in zip(t.elts, n.value.elts):
+                        if _is_bc(te, ve):
+                            assigns.append(ast.copy_location(ast.Assign(targets=[te], value=ve), n))
+                            assigns[-1]._parent = n
         nodes = [cfg.node_for(a) for a in assigns]
         skip = cfg.can_reach(edges[0], opnode, avoid=nodes) if nodes else True
         common.thorough_paths(rep, f"C14.R4:arg{i}", cfg, edges[0], opnode, nodes, dominator_verdict=not skip)
@@ -190,8 +214,13 @@ def r4(p, rep):
     if same:
         sname = shapes[0]
         defs = [n.value for n in walk_no_nested(f.node) if isinstance(n, ast.Assign) and any(norm(t) == norm(sname) for t in n.targets)] if isinstance(sname, ast.Name) else [sname]
+        # everything the shape is computed from: its definitions, loops that append to it, and locals they mention
+        fstmts = [st for st in walk_no_nested(f.node) if isinstance(st, (ast.For, ast.Assign, ast.Expr)) and isinstance(sname, ast.Name) and any(isinstance(y, ast.Name) and y.id == sname.id for y in ast.walk(st)) and not any(isinstance(y, ast.Call) and isinstance(y.func, ast.Name) and y.func.id in ("broadcast", opname) for y in ast.walk(st))]
+        feed = " ".join(norm(st) for st in fstmts)
+        for nm in {y.id for st in fstmts for y in ast.walk(st) if isinstance(y, ast.Name)}:
+            feed += " " + " ".join(norm(a_.value) for a_ in walk_no_nested(f.node) if isinstance(a_, ast.Assign) and any(isinstance(t, ast.Name) and t.id == nm for t in a_.targets) and ".shape" in norm(a_.value))
         for d in defs:
-            text = norm(d)
+            text = norm(d) + " " + feed
             body = text
             for c in ast.walk(d):
                 if isinstance(c, ast.Call):
@@ -272,6 +301,8 @@ def _primitive_words(expr):
                 if k.arg and isinstance(k.value, ast.Constant):
                     words.add(f"{fn}:{k.arg}={k.value.value}")
                     words.add(f"{k.arg}={k.value.value}")
+                    if k.value.value in ("set", "add", "subtract"):
+                        words.add(f"op={k.value.value}")  # the selector keyword may have any name (op=, mode=)
     return words
 
 
